@@ -60,6 +60,26 @@ def evaluate(camp):
                 bad.append(dict(ctx, violated='fit() ran a different number of epochs than max_epochs without a stop', ran=len(f['epochs']), max_epochs=max_epochs))
             if f['trailing']:
                 bad.append(dict(ctx, violated='events after the last callback of the call', events=f['trailing']))
+        # the 'live' metric returns a view of the trained parameter: its entry is the mean over the batches of the value AT THE TIME
+        # the metric function was called (= theta of the batch's last loss evaluation), not what the tensor holds later
+        if run is not None:
+            want_t, want_v = [], []
+            for f in fits:
+                for evs in f['events']:
+                    for t, acc in (('1', want_t), ('0', want_v)):
+                        last = {}
+                        for e in evs:
+                            if e.startswith('L') and e[1:].split(':')[2] == t:
+                                last[int(e[1:].split(':')[3])] = int(e[1:].split(':')[1])
+                        if last:
+                            acc.append(sum(last.values()) / len(last))
+            if run.live_obs:
+                got_t, got_v = run.live_obs[-1][2]
+                for nm, got, want in (('train', got_t, want_t), ('valid', got_v, want_v)):
+                    if len(got) != len(want) or any(abs(a - b) > 1e-9 for a, b in zip(got, want)):
+                        bad.append(dict(script=lines, kw=kw, violated=f'{nm} series of a metric returning a live tensor is not the mean over the batches of '
+                                        'the values the function returned when it was called', got=got[:8], want=want[:8]))
+                        break
     return bad
 
 
